@@ -338,7 +338,18 @@ let run_input form hex a b =
           | Fail st -> report_text (run_tracker start st.tr)
           | _ -> "-" in
         let ar = aparse e fuel true (TRule (r, SkOn)) start [] in
-        let g = if !have_ast && idx <> !cur_eoi then "|G:" ^ res_g (peg_entry (mk_penv i) fuel r) else "" in
+        let g = if !have_ast && idx <> !cur_eoi then begin
+            let pe = mk_penv i in
+            (* the spec-level implicit skip (pest's hidden::skip in non-atomic state) from where the typed prefix parse stopped:
+               the independent trailing-skip computation of C04 *)
+            let sk = match p with
+              | Ok ((off, _), _) ->
+                  (match p_skip pe (p_call pe (peg pe fuel)) fuel ANon false off [] with
+                   | POk (o2, _, _) -> string_of_int (int_of_nat o2)
+                   | PFail -> "fail" | PPanic -> "PANIC" | PFuel -> "FUEL")
+              | _ -> "-" in
+            "|SK:" ^ sk ^ "|G:" ^ res_g (peg_entry pe fuel r)
+          end else "" in
         Printf.printf "%s|%s|%s|%d|%d|P:%s|C:%s|FP:%s|FC:%s|TK:%s|RP:%s%s|A:%s\n" id form hex a b
           (res_p start p) (res_c start c) fps fcs tk rp g (res_a ar))
     (List.rev !shapes)
